@@ -131,7 +131,9 @@ class Builder(NullCell):
     def store_var_int(self, value: int, bit_length: int):
         if value == 0:
             return self.store_uint(0, bit_length)
-        byte_length = math.ceil(value.bit_length() / 8)
+        # minimal two's complement size: int.bit_length() does not count the sign bit
+        magnitude_bits = value.bit_length() if value > 0 else (value + 1).bit_length()
+        byte_length = math.ceil((magnitude_bits + 1) / 8)
         return self.store_uint(byte_length, bit_length).store_int(value, byte_length * 8)
 
     def store_coins(self, amount: int):
